@@ -268,6 +268,37 @@ def _run_all(ctx, items, scratch, workers):
     return res, pool.respawns
 
 
+def _confirm(ctx, unconfirmed, cap=40):
+    """Both runners are deterministic on these programs, but both have internal real-time limits (node start-up, JS
+    evaluation time-outs) that a heavily loaded machine can trip.  A disagreement that is not a listed finding is
+    therefore reported only when an isolated second run (few workers) shows a disagreement again; one that vanishes is
+    counted in the evidence (`unreproduced_disagreements`) and is not a verdict."""
+    if not unconfirmed:
+        return
+    scratch = ctx.scratch("cwl_confirm")
+    again = unconfirmed[:cap]
+    saved = {k: ctx.extra.get(k) for k in ("run_times_s", "worker_import_s")}
+    res, _ = _run_all(ctx, [it for it, _ in again], scratch, 2)
+    ctx.extra.update(saved)
+    st = {"oracle_errors": 0, "oracle_error_samples": [], "spec_disagreements": 0, "spec_disagreement_samples": [],
+          "ref_ok": 0, "ref_fail": 0}
+    reproduced = 0
+    for k, (it, v) in enumerate(again):
+        v2 = _verdict(ctx, it, res[k], st)
+        if v2 is not None:
+            reproduced += 1
+            ctx.violation(*v2)
+        else:
+            ctx.count("unreproduced_disagreements")
+            _note("disagreement %s on %s did not reproduce in isolation" % (v[0], it.get("name") or it["key"][:40]))
+    # beyond the cap: evidently real when the confirmed ones reproduce, otherwise left unreported (counted)
+    for it, v in unconfirmed[cap:]:
+        if reproduced >= 5:
+            ctx.violation(*v)
+        else:
+            ctx.count("unconfirmed_disagreements_beyond_cap")
+
+
 def _note(msg):
     if os.environ.get("VERIF_C29_VERBOSE"):
         print("C29: " + msg, file=sys.stderr, flush=True)
@@ -314,6 +345,7 @@ def run(ctx):
     stats = {"oracle_errors": 0, "oracle_error_samples": [], "spec_disagreements": 0, "spec_disagreement_samples": [],
              "ref_ok": 0, "ref_fail": 0}
     classes = {}
+    unconfirmed = []
     for i, it in enumerate(chosen):
         ctx.case(it["key"])
         ctx.programs += 1
@@ -321,7 +353,11 @@ def run(ctx):
             classes[c] = classes.get(c, 0) + 1
         v = _verdict(ctx, it, res[i], stats)
         if v is not None:
-            ctx.violation(*v)
+            if ctx.is_known(v[0]):
+                ctx.violation(*v)
+            else:
+                unconfirmed.append((it, v))
+    _confirm(ctx, unconfirmed)
     ctx.impl_trace(2 * len(chosen))
     for it in chosen[:3] + chosen[len(hq):len(hq) + 3]:
         ctx.sample({"name": it.get("name"), "features": it["features"], "events": it["events"],
